@@ -71,7 +71,7 @@ class Singular(Exception):
 
 
 TENSOR_OPS = ("leaf", "add", "sub", "mul", "neg", "smul", "div", "sadd", "rsub", "subs", "get", "sumd", "meand",
-              "dotk", "dep_sub", "dep_add", "dep_mul")
+              "dotk", "dep_sub", "dep_add", "dep_mul", "dep_div")
 
 
 def _metric(api, name, a, *more):
@@ -117,6 +117,8 @@ def ev_impl(e, env, api="func"):
         return ev_impl(e[1], env, api) + ev_impl(e[2], env, api)
     if op == "dep_mul":
         return ev_impl(e[1], env, api) * ev_impl(e[2], env, api)
+    if op == "dep_div":
+        return ev_impl(e[1], env, api) / ev_impl(e[2], env, api)
     # scalar-valued
     if op in ("dot", "dist"):
         return _metric(api, op, ev_impl(e[1], env, api), ev_impl(e[2], env, api))
@@ -174,6 +176,8 @@ def ev_dense(e, env):
         return ev_dense(e[1], env) + ev_dense(e[2], env)
     if op == "dep_mul":
         return ev_dense(e[1], env) * ev_dense(e[2], env)
+    if op == "dep_div":
+        return ev_dense(e[1], env) / ev_dense(e[2], env)
     if op == "dot":
         a, b = ev_dense(e[1], env), ev_dense(e[2], env)
         if a.shape != b.shape:
@@ -479,7 +483,7 @@ class Prop:
                         has_sadd=bool(ops & {"sadd", "rsub", "subs"}))
             if add1d_after_reduction(expr, [tshape(t) for t in env]):
                 tags["add1d_after_reduction"] = True
-            dep = ops & {"dep_sub", "dep_add", "dep_mul"}
+            dep = ops & {"dep_sub", "dep_add", "dep_mul", "dep_div"}
             if dep:
                 tags["dep_scalar"] = True; tags["dep_op"] = sorted(dep)[0][4:]
             c = {"env": env, "expr": expr, "grad": mask, "api": api, "ctor": bool(ctor), "tags": tags}
@@ -694,8 +698,15 @@ class Prop:
         for _ in range(12 if quick else 60):
             N = rng.randint(1, 3); shape = [rng.choice([2, 3]) for _ in range(N)]
             env = pair(shape, maxr=2)
-            op = rng.choice(["dep_sub", "dep_sub", "dep_add", "dep_mul"])
+            op = rng.choice(["dep_sub", "dep_sub", "dep_add", "dep_mul", "dep_div", "dep_div"])
             sc = rng.choice([["mean", L0], ["sum", L0], ["dot", L0, L1]])
+            if op == "dep_div":          # a divisor computed from the parameters: |x|^2 of an operand that is not zero
+                k = rng.randrange(2)
+                for _try in range(50):
+                    if float(np.abs(dense_np(env[k])).max()) > 0:
+                        break
+                    env = pair(shape, maxr=2)
+                sc = ["normsq", [L0, L1][k]]
             tr = ["sum", ["mul", [op, L0, sc], L1]]
             m, mc = masks_for(env, "all")
             add(mk(env, tr, m, "dep_scalar", mask_class=mc))
